@@ -39,6 +39,8 @@ import (
 	"github.com/VKCOM/statshouse/internal/vkgo/binlog/fsbinlog"
 )
 
+const c17SigTornTail = "torn-tail-refuses-restart"
+
 const (
 	c17Magic     = uint32(0x3c17e0b5)
 	c17EvHdr     = 20 // magic seq key delta fill
@@ -72,6 +74,7 @@ type c17Seg struct {
 	Kill          c17Kill   `json:"kill"`
 	Reject        []int     `json:"reject,omitempty"`      // the k-th Append/AppendASAP calls of this process return an error without appending
 	CloseAfter    int       `json:"close_after,omitempty"` // >0: Close() is called after that many acknowledgements while the writers go on
+	Tear          int       `json:"tear,omitempty"`        // >0: once the process is gone the parent leaves the first 1+(Tear-1)%119 bytes of one more (120-byte) event at the end of the newest binlog file: a write torn by the kill
 }
 
 type c17Case struct {
@@ -573,6 +576,10 @@ type c17Durable struct {
 	Crc      int
 	Rotates  int
 	Bounds   map[int64]bool // every record boundary
+	// newest file: path, position of its first byte, whether it ends with ROTATE_TO
+	LastFile    string
+	LastFilePos int64
+	LastRotated bool
 }
 
 // c17ParseBinlog reads dir/bl*.bin with its own knowledge of the record formats (no fsbinlog code).
@@ -672,6 +679,8 @@ func c17ParseBinlog(dir string) (*c17Durable, error) {
 		}
 	}
 	d.End = pos
+	d.LastFile, d.LastFilePos = filepath.Join(dir, files[len(files)-1].name), files[len(files)-1].pos
+	d.LastRotated = d.Rotates == len(files)
 	return d, nil
 }
 
@@ -820,7 +829,7 @@ type c17Stats struct {
 	tornTail, rotations, crcRecs   int
 	snapshotsBehind, snapshotsEven int
 	rejected                       int
-	knownTornTail                  int
+	knownTornTail, tornByParent    int
 }
 
 func c17Prop(t vpT, c c17Case, dir string, st *c17Stats) (nontrivial bool, classes []string) {
@@ -838,6 +847,24 @@ func c17Prop(t vpT, c c17Case, dir string, st *c17Stats) (nontrivial bool, class
 		}
 		run := c17Spawn(t, dir, c.Chunk, seg, i)
 		st.children++
+		if prev != nil && prev.TornTail {
+			for _, l := range run.lines {
+				if l.T != "openerr" || !strings.Contains(l.Msg, "current position in file is not equal file size") || !vpKnownListed("C17", c17SigTornTail) {
+					continue
+				}
+				// A write torn by the kill: the newest file ends inside an event and fsbinlog's writer refuses to append
+				// behind it, OpenEngine fails. Listed, unrepaired finding. Do what an operator would (cut the partial
+				// event off) and run the segment again, so that everything behind this point is still checked.
+				st.knownTornTail++
+				classes = append(classes, "restart-refused-on-torn-tail")
+				if err := os.Truncate(prev.LastFile, prev.End-prev.LastFilePos); err != nil {
+					t.Fatalf("VP-INCONCLUSIVE %v", err)
+				}
+				run = c17Spawn(t, dir, c.Chunk, seg, i)
+				st.children++
+				break
+			}
+		}
 		diag := func() string { return fmt.Sprintf("\nchild stderr tail:\n%s", run.stderr) }
 		// --- what the child said
 		var open *c17Line
@@ -875,15 +902,6 @@ func c17Prop(t vpT, c c17Case, dir string, st *c17Stats) (nontrivial bool, class
 			case "harness":
 				t.Fatalf("VP-INCONCLUSIVE segment %d: child harness error: %s", i, l.Msg)
 			case "openerr":
-				if prev != nil && prev.TornTail && strings.Contains(l.Msg, "current position in file is not equal file size") {
-					// the kill tore a multi-page write(): the newest file ends inside an event and fsbinlog's writer refuses
-					// to append behind it. Listed as a known, unrepaired finding; anything else about the case was checked.
-					sig := "torn-tail-refuses-restart"
-					if vpKnownListed("C17", sig) {
-						st.knownTornTail++
-						return nontrivial, append(classes, "known-finding:"+sig)
-					}
-				}
 				t.Fatalf("segment %d: the engine does not open after the previous segment (%s): %s%s", i, c17KillName(c, i-1), l.Msg, diag())
 			case "doerr":
 				t.Fatalf("segment %d: Do of seq %d returned an unexpected error: %s%s", i, l.Seq, l.Msg, diag())
@@ -1027,6 +1045,28 @@ func c17Prop(t vpT, c c17Case, dir string, st *c17Stats) (nontrivial bool, class
 				}
 			}
 		}
+		if seg.Tear > 0 && !last {
+			if d.TornTail || d.LastRotated {
+				classes = append(classes, "tear-skipped")
+			} else {
+				partial := c17Encode(c17Ev{Seq: 0xfffff000 + uint32(i), Fill: 100})[:1+(seg.Tear-1)%119]
+				f, err := os.OpenFile(d.LastFile, os.O_WRONLY|os.O_APPEND, 0)
+				if err == nil {
+					_, err = f.Write(partial)
+					_ = f.Close()
+				}
+				if err != nil {
+					t.Fatalf("VP-INCONCLUSIVE tearing the tail: %v", err)
+				}
+				d2, err := c17ParseBinlog(dir)
+				if err != nil || !d2.TornTail || len(d2.Events) != len(d.Events) || d2.End != d.End {
+					t.Fatalf("VP-INCONCLUSIVE harness: torn tail of %d bytes not classified as such (%v)", len(partial), err)
+				}
+				d = d2
+				st.tornByParent++
+				classes = append(classes, "tail-torn-by-parent")
+			}
+		}
 		if rejected > 0 {
 			st.rejected += rejected
 			classes = append(classes, "append-rejected")
@@ -1156,6 +1196,9 @@ func c17Gen() *rapid.Generator[c17Case] {
 			if rapid.IntRange(0, 5).Draw(t, "close_early?") == 0 {
 				seg.CloseAfter = rapid.IntRange(1, totalOps).Draw(t, "close_after")
 			}
+			if s < nseg-1 && rapid.IntRange(0, 7).Draw(t, "tear?") == 0 {
+				seg.Tear = rapid.IntRange(1, 119).Draw(t, "tear")
+			}
 			if s == nseg-1 {
 				seg.Kill = c17Kill{At: "none"}
 			} else {
@@ -1195,6 +1238,20 @@ func c17TempDir(t vpT) string {
 	return dir
 }
 
+func c17Known(ev *vpEvidence, st, total *c17Stats) {
+	if st.knownTornTail > 0 {
+		total.knownTornTail += st.knownTornTail
+		ev.Known(c17SigTornTail, "a write torn by the kill leaves the newest binlog file ending inside an event; OpenEngine then fails: current position in file is not equal file size")
+	}
+}
+
+// c17TornTailCase is the deterministic instance of the listed finding torn-tail-refuses-restart (same as
+// replays/C17/torn-tail-refuses-restart.json): it runs first in every run of TestVerifC17Crash.
+var c17TornTailCase = c17Case{Segs: []c17Seg{
+	{CommitEveryMs: 2, Writers: [][]c17Op{{{Seq: 1, Key: 0, Delta: 1, Fill: 10}, {Seq: 2, Key: 1, Delta: 2, Fill: 300}}}, Kill: c17Kill{At: "none"}, Tear: 57},
+	{CommitEveryMs: 2, Writers: [][]c17Op{{{Seq: 3, Key: 1, Delta: 5}}}, Kill: c17Kill{At: "none"}},
+}}
+
 func TestVerifC17Crash(t *testing.T) {
 	if os.Getenv("C17_PLAN") != "" {
 		t.Skip("child role")
@@ -1202,6 +1259,15 @@ func TestVerifC17Crash(t *testing.T) {
 	ev := vpNewEv(t, "C17", "crash")
 	var total c17Stats
 	total.killPoints = map[string]int{}
+	func() {
+		dir := c17TempDir(t)
+		defer os.RemoveAll(dir)
+		var st c17Stats
+		nt, cls := c17Prop(t, c17TornTailCase, dir, &st)
+		c17Known(ev, &st, &total)
+		total.tornByParent += st.tornByParent
+		ev.Case(nt, c17TornTailCase, append(cls, "fixed-torn-tail-instance")...)
+	}()
 	rapid.Check(t, func(rt *rapid.T) {
 		c := c17Gen().Draw(rt, "case")
 		vpRunCase(rt, "C17", "crash", c, func() {
@@ -1219,10 +1285,8 @@ func TestVerifC17Crash(t *testing.T) {
 			total.snapshotsBehind += st.snapshotsBehind
 			total.snapshotsEven += st.snapshotsEven
 			total.rejected += st.rejected
-			if st.knownTornTail > 0 {
-				total.knownTornTail += st.knownTornTail
-				ev.Known("torn-tail-refuses-restart", "SIGKILL in the middle of a multi-page write() left the newest binlog file ending inside an event; OpenEngine fails: current position in file is not equal file size")
-			}
+			total.tornByParent += st.tornByParent
+			c17Known(ev, &st, &total)
 			for k, v := range st.killPoints {
 				total.killPoints[k] += v
 			}
@@ -1237,6 +1301,8 @@ func TestVerifC17Crash(t *testing.T) {
 	}
 	ev.Class("fault-points:kills-with-unacknowledged-write-in-flight", int64(total.inflightAtKill))
 	ev.Class("fault-points:appends-rejected", int64(total.rejected))
+	ev.Class("fault-points:tails-torn-by-parent", int64(total.tornByParent))
+	ev.Class("restarts-refused-on-torn-tail(known)", int64(total.knownTornTail))
 	ev.Class("reader-observations-checked", int64(total.viewsChecked))
 	ev.Class("db-snapshot-behind-binlog", int64(total.snapshotsBehind))
 	ev.Class("db-snapshot-level-with-binlog", int64(total.snapshotsEven))
